@@ -243,6 +243,13 @@ def parse_unit(path):
     flush()
     if cur is not None:
         raise UnitError(f'{path}: fn block for {cur.qual} not closed with `end`')
+    # a unit is run for every property that one of its named clauses is tagged with, not only for the ones in `serves`
+    # (`serves` stays the default attribution of untagged obligations: lemmas, proof steps)
+    u.tagged = set(u.serves)
+    for it in u.items:
+        if it[0] == 'fn':
+            for c in it[1].clauses:
+                u.tagged |= set(c.props)
     return u
 
 
